@@ -7,6 +7,8 @@ import (
 	"go/types"
 	"strings"
 
+	"golang.org/x/tools/go/packages"
+
 	"j5verif/checker/core"
 )
 
@@ -18,34 +20,74 @@ import (
 // the attribute ("every rule and annotation … set to arbitrary admissible
 // values, including both values of every boolean").
 func attributeIndependence(r *core.Run, table string, fns ...string) {
+	attributeIndependenceIn(r, convRel, []string{schemaPB}, table, fns...)
+}
+
+// attributeIndependenceIn: the same rule for another package and other source
+// message packages (the reader side: annotation messages → schema).
+func attributeIndependenceIn(r *core.Run, rel string, srcPkgs []string, table string, fns ...string) {
 	r.Rule("R-SYM/S7", "every statement of the converter that copies a source-schema attribute (a selector chain rooted at the case-bound source node) into the output is conditioned, inside its case clause, only by tests on prefixes of that same chain, by type switches over such a prefix, or by error tests; a condition over a sibling attribute or an unrelated local needs a recorded reason")
+	if len(fns) == 1 && fns[0] == "*" {
+		fns = nil
+		if pk := r.P.Pkg(rel); pk != nil {
+			core.AllFuncDecls(pk, func(fd *ast.FuncDecl) {
+				if !strings.HasSuffix(r.P.Fset.Position(fd.Pos()).Filename, "_test.go") {
+					fns = append(fns, core.FuncName(fd))
+				}
+			})
+		}
+	}
 	for _, fn := range fns {
-		fd, pk := r.P.FuncDecl(convRel, fn)
+		fd, pk := r.P.FuncDecl(rel, fn)
 		if fd == nil {
-			r.Fatal("anchor: %s.%s not found", convRel, fn)
+			r.Fatal("anchor: %s.%s not found", rel, fn)
 			continue
 		}
 		info := pk.TypesInfo
 		// source roots: variables bound by `switch st := X.(type)` whose case types are schema_j5pb wrappers
-		isSourceChain := func(e ast.Expr) (string, bool) {
-			s := core.ExprStr(e)
-			root := rootIdent(e)
-			if root == nil {
-				return "", false
+		inSrcPkg := func(t types.Type) bool {
+			if t == nil {
+				return false
 			}
-			obj := info.Uses[root]
-			if obj == nil {
-				return "", false
-			}
-			t := obj.Type()
 			if p, ok := t.(*types.Pointer); ok {
 				t = p.Elem()
 			}
 			n, ok := t.(*types.Named)
-			if !ok || n.Obj().Pkg() == nil || n.Obj().Pkg().Path() != schemaPB {
-				return "", false
+			if !ok || n.Obj().Pkg() == nil {
+				return false
 			}
-			return s, true
+			for _, sp := range srcPkgs {
+				if n.Obj().Pkg().Path() == sp {
+					return true
+				}
+			}
+			return false
+		}
+		// a source chain reads a field (or getter) of a source message, or is a
+		// variable holding one
+		isSourceChain := func(e ast.Expr) (string, bool) {
+			e = core.Unparen(e)
+			s := core.ExprStr(e)
+			switch x := e.(type) {
+			case *ast.Ident:
+				if obj := info.Uses[x]; obj != nil && inSrcPkg(obj.Type()) {
+					return s, true
+				}
+			case *ast.SelectorExpr:
+				if inSrcPkg(info.TypeOf(x.X)) {
+					return s, true
+				}
+				if root := rootIdent(x); root != nil {
+					if obj := info.Uses[root]; obj != nil && inSrcPkg(obj.Type()) {
+						return s, true
+					}
+				}
+			case *ast.CallExpr:
+				if sel, ok := x.Fun.(*ast.SelectorExpr); ok && len(x.Args) == 0 && inSrcPkg(info.TypeOf(sel.X)) {
+					return s, true
+				}
+			}
+			return "", false
 		}
 		// aliases: `switch et := st.Key.Entity.Type.(type)` binds et to that chain
 		alias := map[types.Object]string{}
@@ -72,14 +114,96 @@ func attributeIndependence(r *core.Run, table string, fns ...string) {
 			}
 			return true
 		})
-		expand := func(chain string, e ast.Expr) string {
-			if root := rootIdent(e); root != nil {
-				if a, ok := alias[info.Uses[root]]; ok {
-					// never expand the outer `st`: its subject is the node itself
-					if !strings.Contains(a, "node.") && strings.HasPrefix(chain, root.Name) {
-						return a + strings.TrimPrefix(chain, root.Name)
+		// range variables over a source chain: `for _, f := range node.Schema.Info`
+		ast.Inspect(fd.Body, func(nd ast.Node) bool {
+			rs, ok := nd.(*ast.RangeStmt)
+			if !ok || rs.Value == nil {
+				return true
+			}
+			id, ok := rs.Value.(*ast.Ident)
+			if !ok {
+				return true
+			}
+			if _, isSrc := isSourceChain(rs.X); !isSrc {
+				return true
+			}
+			if o := info.Defs[id]; o != nil {
+				alias[o] = core.ExprStr(rs.X) + ".[]"
+			}
+			return true
+		})
+		// locals defined once from a source chain: `c := ext.validate.GetString_()`, `x := y.Field`, `t, ok := y.Type.(*T)`
+		normalise := func(e ast.Expr) string {
+			s := core.ExprStr(e)
+			// getters read the field of the same name
+			for strings.Contains(s, ".Get") {
+				i := strings.Index(s, ".Get")
+				j := strings.Index(s[i:], "()")
+				if j < 0 {
+					break
+				}
+				s = s[:i] + "." + s[i+4:i+j] + s[i+j+2:]
+			}
+			return s
+		}
+		ast.Inspect(fd.Body, func(nd ast.Node) bool {
+			as, ok := nd.(*ast.AssignStmt)
+			if !ok || as.Tok != token.DEFINE || len(as.Rhs) != 1 || len(as.Lhs) == 0 {
+				return true
+			}
+			id, ok := as.Lhs[0].(*ast.Ident)
+			if !ok {
+				return true
+			}
+			rhs := core.Unparen(as.Rhs[0])
+			if ta, ok := rhs.(*ast.TypeAssertExpr); ok {
+				rhs = ta.X
+			}
+			if _, isSrc := isSourceChain(rhs); !isSrc {
+				// a getter call on a source chain
+				c, isCall := rhs.(*ast.CallExpr)
+				if !isCall || len(c.Args) != 0 {
+					return true
+				}
+				sel, isSel := c.Fun.(*ast.SelectorExpr)
+				if !isSel || !strings.HasPrefix(sel.Sel.Name, "Get") {
+					return true
+				}
+				if _, isSrc2 := isSourceChain(sel.X); !isSrc2 {
+					if root := rootIdent(sel.X); root == nil || alias[info.Uses[root]] == "" {
+						return true
 					}
 				}
+			}
+			if o := info.Defs[id]; o != nil {
+				if _, dup := alias[o]; !dup {
+					alias[o] = normalise(rhs)
+				}
+			}
+			return true
+		})
+		byName := map[string]string{}
+		for o, a := range alias {
+			byName[o.Name()] = a
+		}
+		expand := func(chain string, e ast.Expr) string {
+			chain = normalise(&ast.Ident{Name: chain})
+			// first step by object identity (names such as cType are reused per switch)
+			if root := rootIdent(e); root != nil {
+				if a, ok := alias[info.Uses[root]]; ok && strings.HasPrefix(chain, root.Name) {
+					chain = a + strings.TrimPrefix(chain, root.Name)
+				}
+			}
+			for i := 0; i < 6; i++ {
+				root := chain
+				if j := strings.IndexAny(chain, ".["); j >= 0 {
+					root = chain[:j]
+				}
+				a, ok := byName[root]
+				if !ok || a == root || strings.HasPrefix(a, root+".") {
+					break
+				}
+				chain = a + strings.TrimPrefix(chain, root)
 			}
 			return chain
 		}
@@ -103,6 +227,9 @@ func attributeIndependence(r *core.Run, table string, fns ...string) {
 				if _, isSel := x.Lhs[0].(*ast.SelectorExpr); !isSel {
 					return true
 				}
+				if !isOutputType(info.TypeOf(x.Lhs[0].(*ast.SelectorExpr).X)) {
+					return true
+				}
 				lhsStr, rhs, at = core.ExprStr(x.Lhs[0]), x.Rhs[0], x
 			case *ast.KeyValueExpr:
 				k, ok := x.Key.(*ast.Ident)
@@ -118,6 +245,9 @@ func attributeIndependence(r *core.Run, table string, fns ...string) {
 				if lit == "" {
 					return true
 				}
+				if cl, ok := stack[len(stack)-2].(*ast.CompositeLit); ok && !isOutputType(info.TypeOf(cl)) {
+					return true
+				}
 				lhsStr, rhs, at = lit+"{"+k.Name+"}", x.Value, x
 			default:
 				return true
@@ -129,8 +259,17 @@ func attributeIndependence(r *core.Run, table string, fns ...string) {
 			if st, ok := rhs.(*ast.StarExpr); ok {
 				rhs = st.X
 			}
-			sel, ok := rhs.(*ast.SelectorExpr)
-			if !ok {
+			var sel ast.Expr
+			switch x := rhs.(type) {
+			case *ast.SelectorExpr:
+				sel = x
+			case *ast.CallExpr:
+				// a generated getter on a source message reads the field of that name
+				if fs, ok := x.Fun.(*ast.SelectorExpr); ok && len(x.Args) == 0 && strings.HasPrefix(fs.Sel.Name, "Get") {
+					sel = x
+				}
+			}
+			if sel == nil {
 				return true
 			}
 			chain, ok := isSourceChain(sel)
@@ -168,10 +307,39 @@ func attributeIndependence(r *core.Run, table string, fns ...string) {
 						foreign = append(foreign, core.ExprStr(x.Cond))
 						foreignIfs = append(foreignIfs, br)
 					}
+				case *ast.CaseClause:
+					// tagless switch: this case's conditions and those of the cases it fell past
+					if i >= 2 {
+						if sw, ok := stack[i-2].(*ast.SwitchStmt); ok && sw.Tag == nil {
+							for _, cl := range sw.Body.List {
+								cc := cl.(*ast.CaseClause)
+								for _, ce := range cc.List {
+									ownDisjunct := false
+									for _, d := range disjuncts(ce) {
+										all := true
+										for _, c := range condChains(d) {
+											if !chainRelated(c, chain, info, expand) {
+												all = false
+											}
+										}
+										if all {
+											ownDisjunct = true
+										}
+									}
+									if !ownDisjunct {
+										foreign = append(foreign, "case "+core.ExprStr(ce))
+									}
+								}
+								if cc == x {
+									break
+								}
+							}
+						}
+					}
 				case *ast.TypeSwitchStmt:
 					if a, ok := x.Assign.(*ast.AssignStmt); ok && len(a.Rhs) == 1 {
 						if ta, ok := core.Unparen(a.Rhs[0]).(*ast.TypeAssertExpr); ok {
-							c := core.ExprStr(ta.X)
+							c := expand(core.ExprStr(ta.X), ta.X)
 							if _, isSrc := isSourceChain(ta.X); isSrc && !chainRelatedStr(c, chain) {
 								// switch over a different source oneof: sibling
 								if len(a.Lhs) == 1 && !strings.HasPrefix(chain, core.ExprStr(a.Lhs[0])+".") {
@@ -179,6 +347,29 @@ func attributeIndependence(r *core.Run, table string, fns ...string) {
 								}
 							}
 						}
+					}
+				}
+			}
+			// the source message was obtained through a helper that returns nil
+			// under some condition: that condition filters every attribute of the
+			// message, so it counts like an enclosing `if !(cond)`
+			if root := rootIdent(sel); root != nil {
+				for _, hc := range helperFilters(r, pk, fd, info.Uses[root]) {
+					own := false
+					for _, d := range hc.disjuncts {
+						all := true
+						for _, c := range d {
+							c = strings.Replace(c, hc.result, root.Name, 1)
+							if !chainRelatedStr(expand(c, &ast.Ident{Name: "_"}), chain) {
+								all = false
+							}
+						}
+						if all {
+							own = true
+						}
+					}
+					if !own {
+						foreign = append(foreign, "helper "+hc.fn+" returns nil when "+hc.text)
 					}
 				}
 			}
@@ -220,6 +411,91 @@ func attributeIndependence(r *core.Run, table string, fns ...string) {
 			}
 		}
 	}
+}
+
+type helperFilter struct {
+	fn, text, result string
+	disjuncts        [][]string // chains per disjunct of the keep-condition !(cond)
+}
+
+// helperFilters: obj is a local defined as `x := f(…)` with f a function of the
+// same package whose body has `if cond { return nil }` statements before it
+// returns a variable v. Each such cond, with v standing for x, is returned as
+// the disjuncts of its negation.
+func helperFilters(r *core.Run, pk *packages.Package, caller *ast.FuncDecl, obj types.Object) []helperFilter {
+	if obj == nil {
+		return nil
+	}
+	info := pk.TypesInfo
+	var callee *types.Func
+	ast.Inspect(caller.Body, func(n ast.Node) bool {
+		as, ok := n.(*ast.AssignStmt)
+		if !ok || len(as.Lhs) == 0 || len(as.Rhs) != 1 {
+			return true
+		}
+		id, ok := as.Lhs[0].(*ast.Ident)
+		if !ok || info.Defs[id] != obj {
+			return true
+		}
+		if c, ok := core.Unparen(as.Rhs[0]).(*ast.CallExpr); ok {
+			if fn := core.CalleeFunc(info, c); fn != nil && fn.Pkg() == pk.Types {
+				callee = fn
+			}
+		}
+		return true
+	})
+	if callee == nil {
+		return nil
+	}
+	var out []helperFilter
+	core.AllFuncDecls(pk, func(fd *ast.FuncDecl) {
+		if info.Defs[fd.Name] != types.Object(callee) || fd.Body == nil {
+			return
+		}
+		// the variable finally returned
+		result := ""
+		if n := len(fd.Body.List); n > 0 {
+			if ret, ok := fd.Body.List[n-1].(*ast.ReturnStmt); ok && len(ret.Results) >= 1 {
+				if id, ok := core.Unparen(ret.Results[0]).(*ast.Ident); ok {
+					result = id.Name
+				}
+			}
+		}
+		if result == "" {
+			return
+		}
+		for _, st := range fd.Body.List {
+			ifs, ok := st.(*ast.IfStmt)
+			if !ok || len(ifs.Body.List) != 1 {
+				continue
+			}
+			ret, ok := ifs.Body.List[0].(*ast.ReturnStmt)
+			if !ok || len(ret.Results) < 1 || !core.IsNilIdent(info, ret.Results[0]) {
+				continue
+			}
+			hf := helperFilter{fn: fd.Name.Name, text: core.ExprStr(ifs.Cond), result: result}
+			for _, c := range conjuncts(ifs.Cond) {
+				var chains []string
+				for _, e := range condChains(c) {
+					s := core.ExprStr(e)
+					if s == "nil" || s == "true" || s == "false" {
+						continue
+					}
+					chains = append(chains, s)
+				}
+				hf.disjuncts = append(hf.disjuncts, chains)
+			}
+			out = append(out, hf)
+		}
+	})
+	return out
+}
+
+func conjuncts(e ast.Expr) []ast.Expr {
+	if b, ok := core.Unparen(e).(*ast.BinaryExpr); ok && b.Op.String() == "&&" {
+		return append(conjuncts(b.X), conjuncts(b.Y)...)
+	}
+	return []ast.Expr{e}
 }
 
 type ifBranch struct {
@@ -296,7 +572,24 @@ func disjuncts(e ast.Expr) []ast.Expr {
 }
 
 func chainRelated(c ast.Expr, chain string, info *types.Info, expand func(string, ast.Expr) string) bool {
+	// tests on the descriptor being reflected (field.IsList(), src.Kind()) say
+	// where the attribute can exist at all; they are not sibling attributes
+	if root := rootIdent(c); root != nil {
+		if t := info.TypeOf(root); t != nil && strings.Contains(core.TypeStr(t), "protoreflect.") {
+			return true
+		}
+	}
 	s := expand(core.ExprStr(c), c)
+	// a test on the oneof holder (an interface-typed field such as .Type) of a
+	// message on the attribute's path is a test of the attribute's presence
+	if sel, ok := core.Unparen(c).(*ast.SelectorExpr); ok {
+		if _, isIface := info.TypeOf(sel).Underlying().(*types.Interface); isIface {
+			parent := expand(core.ExprStr(sel.X), sel.X)
+			if strings.HasPrefix(chain, parent+".") {
+				return true
+			}
+		}
+	}
 	if s == "nil" || s == "err" || s == "true" || s == "false" {
 		return true
 	}
@@ -316,4 +609,29 @@ func chainRelated(c ast.Expr, chain string, info *types.Info, expand func(string
 
 func isErrType(t types.Type) bool {
 	return t != nil && types.Identical(t, types.Universe.Lookup("error").Type())
+}
+
+// isOutputType: the value being filled in is part of what the converter or
+// the reflector produces (descriptor, annotation or schema messages, j5schema
+// structs) — not an error value or an internal helper struct.
+func isOutputType(t types.Type) bool {
+	if t == nil {
+		return false
+	}
+	if p, ok := t.(*types.Pointer); ok {
+		t = p.Elem()
+	}
+	n, ok := t.(*types.Named)
+	if !ok || n.Obj().Pkg() == nil {
+		return false
+	}
+	path := n.Obj().Pkg().Path()
+	switch {
+	case strings.Contains(path, "/gen/"), strings.Contains(path, "buf/validate"), strings.Contains(path, "descriptorpb"), strings.Contains(path, "genproto"):
+		// a reference message is an intermediate, not an emitted attribute
+		return n.Obj().Name() != "Ref"
+	case strings.HasSuffix(path, "/lib/j5schema"):
+		return !strings.HasSuffix(n.Obj().Name(), "Error")
+	}
+	return false
 }
